@@ -102,6 +102,10 @@ inductive Form where
   | afterPrompt (pad : Nat)
   /-- after the output, no fresh prompt -/
   | after
+  /-- after the COMPLETE last line of echo/output (its line feed included), `pre` extra empty lines
+  before the banner (3 + `pre` line feeds in front of BEL), `post` empty lines between the banner and
+  the prompt (`post = 0`: the prompt follows the banner directly), no fresh prompt -/
+  | afterLine (pre post : Nat)
   deriving DecidableEq, Repr
 
 structure Behav where
@@ -132,6 +136,7 @@ def replyFor (cmd : Str) (b : Behav) : Str :=
   | .afterPrompt pad =>
       dropLastNL (cmd ++ ['\n'] ++ b.out) ++ nls pad ++ bannerText b.msg ++ ['\n'] ++ prompt ++ ['\n'] ++ prompt
   | .after => dropLastNL (cmd ++ ['\n'] ++ b.out) ++ bannerText b.msg ++ ['\n'] ++ prompt
+  | .afterLine pre post => cmd ++ ['\n'] ++ b.out ++ nls pre ++ bannerText b.msg ++ nls post ++ prompt
 
 def reloadParts (withDo : Bool) : List Str :=
   [(if withDo then lit "do " else []) ++
